@@ -368,6 +368,10 @@ class TransformedParameter(AbstractParameter, Parametric, collections.abc.Callab
             self.x = x
         self._tensor = self.transform(self.x.tensor)
         self.listeners = []
+        # a parametric transform (e.g. AffineTransform) can hold parameters
+        for value in vars(self.transform).values():
+            if isinstance(value, AbstractParameter):
+                value.add_parameter_listener(self)
 
     def parameters(self) -> list[AbstractParameter]:
         return self.x.parameters()
